@@ -640,11 +640,21 @@ def run(ck):
     par_compare(ck, h64, dcmd, dup, "sponge-block-boundary-64bit")
     par_compare(ck, hsmall, dcmd, dup, "sponge-block-boundary-small")
     par_compare(ck, h32, dcmd, dup, "sponge-block-boundary-32bit")
-    # long messages (bit count >= 2^32): always in the thorough tier; in the quick tier only as part of the
-    # search for a failing input when a C05 bridge / proof / table tie no longer checks
-    ck.cov["long_message_family_run"] = not qk(ck)
-    if not qk(ck):
-        ck.cov["long_message_oracle"] = LONG_ORACLE
+    # long messages (bit count >= 2^32), compared with hashlib as search/monitor oracle (not part of a theorem):
+    #  * quick tier, ALWAYS: a reduced set - 2^29 + 65 bytes for each Merkle-Damgard digest that has its own
+    #    length encoding (MD5, SHA-1, SHA-256, SHA-512; SHA-224/384 share the code) - started here in the
+    #    background and collected at the end of the run, so that it overlaps the other streams;
+    #  * thorough tier, and quick tier when a C05 bridge / proof / table tie no longer checks: the full set.
+    ck.cov["long_message_oracle"] = LONG_ORACLE
+    ck.cov["long_message_family_run"] = "full" if not qk(ck) else "reduced (2^29+65 bytes x md5, sha1, sha256, sha512)"
+    long_pending = None
+    if qk(ck):
+        longq = [["d.long %s %d %d" % (name, (1 << 29) + 65, rng.below(256))] for name in ("md5", "sha1", "sha256", "sha512")]
+        op_histogram(ck, longq)
+        long_pool = ThreadPoolExecutor(len(longq))
+        long_pending = [(c, long_pool.submit(ck.both, ck.c05_hlong, ref, "#case\n" + c[0] + "\n", 3000)) for c in longq]
+        ck.cov["long_message_bytes"] = sum(int(c[0].split()[2]) for c in longq)
+    else:
         longc = gen_long_cases(ck, rng)
         op_histogram(ck, longc)
         par_compare(ck, ck.c05_hlong, ref, longc, "long-messages-reference-hashlib", shard=1, timeout=3000)
@@ -665,6 +675,17 @@ def run(ck):
     par_compare(ck, hsmall, ref, [c for c in refc if any(k in c[0] for k in ("sha3", "shake"))], "reference-hashlib-small")
     par_compare(ck, h32, ref, [c for c in refc if any(k in c[0] for k in ("sha3", "shake"))], "reference-hashlib-32bit")
 
+    if long_pending is not None:
+        for c, fut in long_pending:
+            cl, ml, _ = fut.result()
+            if ck.first_diff(cl, ml) is None:
+                ck.count(1)
+                ck.distinct(tuple(c))
+                ck.cov["op_lines"] = ck.cov.get("op_lines", 0) + 2
+            else:
+                ck.compare_cases(ck.c05_hlong, ref, [c], label="long-messages-reference-hashlib", timeout=3000)
+        hist = ck.cov.setdefault("cases_by_stream", {})
+        hist["long-messages-reference-hashlib"] = hist.get("long-messages-reference-hashlib", 0) + len(long_pending)
     for s in (md[len(md) // 3], hm_md[7], spg[11], cha[3], kd[5]):
         ck.sample(" ; ".join(x if len(x) < 90 else x[:87] + "..." for x in s)[:400])
     if not ck.quick():
